@@ -214,6 +214,7 @@ type rtResult struct {
 	Norm0, Norm1, Norm2 string
 	Items0, Items1      []item        // named items of load j and of load (dump (load j))
 	Cfg0, Cfg1          v2.MOSNConfig // load j and load (dump (load j)), normalised
+	AltWhy              string        // the hand-over / DumpConfig bytes load to another configuration than the first dump
 }
 
 // item: a cluster, a router or a virtual host of a loaded configuration
@@ -307,11 +308,46 @@ func roundTrip(path, dir string) (*rtResult, string) {
 	ioutil.WriteFile(p1, d1, 0o644)
 	cfg1, why := tryParse(p1)
 	if cfg1 == nil {
-		return res, "dump-not-loadable:" + why
+		return res, "dump-not-reloadable:transferConfig:" + why
 	}
 	res.Norm1 = normalised(cfg1)
 	res.Items1 = itemsOf(cfg1)
 	res.Cfg1 = normaliseCfg(cfg1)
+	// the other two ways the same bytes leave the process: the hot-upgrade hand-over and the file DumpConfig writes
+	// (JSON and YAML config path).  Each must be loadable and load to the configuration the first dump loads to.
+	same := func(what, p string) string {
+		c, why := tryParse(p)
+		if c == nil {
+			return "dump-not-reloadable:" + what + ":" + why
+		}
+		if n := normalised(c); n != res.Norm1 && res.AltWhy == "" {
+			// (reported by the caller unless an item was lost: with two items in one file every dump may keep another one)
+			res.AltWhy = "dump-not-reloadable:" + what + ":loads to another configuration at " + jsonDiff(res.Norm1, n)
+		}
+		return ""
+	}
+	if ih, err := configmanager.InheritMosnconfig(); err != nil {
+		return res, "dump-not-reloadable:InheritMosnconfig:" + firstWords(err.Error(), 6)
+	} else {
+		ph := filepath.Join(dir, "handover.json")
+		ioutil.WriteFile(ph, ih, 0o644)
+		if w := same("InheritMosnconfig", ph); w != "" {
+			return res, w
+		}
+	}
+	for _, ext := range []string{".json", ".yaml"} {
+		pp := filepath.Join(dir, "persisted"+ext)
+		os.Remove(pp)
+		configmanager.VerifSetConfigPath(pp)
+		configmanager.VerifForceDump()
+		configmanager.VerifSetConfigPath(path)
+		if _, err := os.Stat(pp); err != nil {
+			return res, "dump-not-reloadable:DumpConfig" + ext + ":no file written (the previous file would stay)"
+		}
+		if w := same("DumpConfig"+ext, pp); w != "" {
+			return res, w
+		}
+	}
 	configmanager.Reset()
 	cfg = configmanager.Load(p1)
 	initEffective(cfg)
@@ -324,7 +360,7 @@ func roundTrip(path, dir string) (*rtResult, string) {
 	ioutil.WriteFile(p2, d2, 0o644)
 	cfg2, why := tryParse(p2)
 	if cfg2 == nil {
-		return res, "dump2-not-loadable:" + why
+		return res, "dump-not-reloadable:transferConfig-second:" + why
 	}
 	res.Norm2 = normalised(cfg2)
 	return res, ""
@@ -674,6 +710,10 @@ func c19(args []string) int {
 		nontrivial := strings.Contains(string(res.Dump1), `"listeners"`) || strings.Contains(string(res.Dump1), `"clusters"`) || strings.Contains(string(res.Dump1), `"routers"`)
 		run.Count(fmt.Sprintf("%x", doc), nontrivial, "doc:"+kind)
 		if why != "" {
+			if strings.HasPrefix(why, "dump-not-reloadable:") {
+				run.Fail(strings.Join(strings.SplitN(why, ":", 3)[:2], ":"), fmt.Sprintf("%s %s: %s", kind, name, why), replay)
+				return
+			}
 			run.Fail("roundtrip-broken:"+strings.SplitN(why, ":", 2)[0], fmt.Sprintf("%s %s: %s", kind, name, why), replay)
 			return
 		}
@@ -715,6 +755,9 @@ func c19(args []string) int {
 			if it.PathMode {
 				run.Sum.Distribution["items:path-mode:"+it.Kind+":name-len-"+lenBucket(len(it.Name))]++
 			}
+		}
+		if res.AltWhy != "" && !lostAny {
+			run.Fail(strings.Join(strings.SplitN(res.AltWhy, ":", 3)[:2], ":"), fmt.Sprintf("%s %s: %s", kind, name, res.AltWhy), replay)
 		}
 		if res.Norm1 != res.Norm2 && !lostAny {
 			d := jsonDiff(res.Norm1, res.Norm2)
@@ -1156,7 +1199,7 @@ func c19(args []string) int {
 	// digits as the unit has decimal places below it (the float computation of the fraction is exact there).
 	durTexts := map[string]bool{}
 	for i, d := range append(append([]time.Duration{}, durationValues...), durs...) {
-		if i > 160 && run.Tier != "thorough" {
+		if i > 90 && run.Tier != "thorough" {
 			break
 		}
 		add(fmt.Sprintf("(DurFmt (%d)%%Z %s)", int64(d), coqStr(d.String())), map[string]interface{}{"kind": "duration-print", "nanos": int64(d)})
@@ -1186,6 +1229,29 @@ func c19(args []string) int {
 		add(fmt.Sprintf("(DurCase %s %s)", coqStr(t), res), map[string]interface{}{"kind": "duration-parse", "text": t})
 	}
 	run.Sum.Distribution["model:duration-text-case"] = len(texts)
+	// ... and the model of the TEXT of a string (theorem c19_string_text_roundtrip): what json.Marshal writes for it, what
+	// json.Unmarshal reads from a literal body
+	for _, hs := range hostileStrings {
+		b, err := json.Marshal(hs)
+		if err != nil || len(b) < 2 {
+			continue
+		}
+		body := string(b[1 : len(b)-1])
+		add(fmt.Sprintf("(EscCase %s %s)", coqStr(hs), coqStr(body)), map[string]interface{}{"kind": "string-text", "string": hs})
+		add(fmt.Sprintf("(UnescCase %s (Some %s))", coqStr(body), coqStr(hs)), map[string]interface{}{"kind": "string-literal", "literal": body})
+		// the string taken AS a literal body (a backslash followed by u003c is then an escape; a lone backslash is invalid)
+		var back string
+		res := "None"
+		if strings.IndexByte(hs, '"') < 0 && json.Unmarshal([]byte(`"`+hs+`"`), &back) == nil && !strings.ContainsRune(back, 0xFFFD) && !strings.Contains(strings.ToLower(hs), "\\ud") {
+			res = "(Some " + coqStr(back) + ")"
+		} else if json.Unmarshal([]byte(`"`+hs+`"`), &back) == nil {
+			continue // (surrogates / replaced bytes: outside the model)
+		}
+		if strings.IndexByte(hs, '"') < 0 {
+			add(fmt.Sprintf("(UnescCase %s %s)", coqStr(hs), res), map[string]interface{}{"kind": "string-literal", "literal": hs})
+		}
+		run.Sum.Distribution["model:string-text-case"]++
+	}
 	sh.Close()
 	// (d) the effective-config state machine
 	effHistories(run, r, tmp, custom)
